@@ -10,6 +10,8 @@ pub mod simulator;
 pub mod simulator_error;
 pub(crate) mod tb_dirty;
 pub mod testbench;
+#[cfg(veryl_verif)]
+pub mod verif;
 pub mod wave_dumper;
 pub mod wavedrom;
 pub mod wide_ops;
